@@ -411,7 +411,7 @@ var c37EdgeSetAttrs = []string{"label", "label", "label", "style.stroke", "style
 	"style.animated", "style.font-size", "style.font-color", "style.bold", "style.italic", "style.underline"}
 
 func c37SetValue(r *Rng, attr string) string {
-	if r.Chance(0.06) { // mostly refused by the compiler for non-string attributes
+	if attr != "link" && r.Chance(0.06) { // mostly refused by the compiler for non-string attributes (a link that is not a URL is a board link, dropped when the board does not exist)
 		s, _ := c05RandStr(r)
 		return s
 	}
